@@ -6,6 +6,8 @@ import Proofs.Gen
 import Proofs.Ring
 import Proofs.Lift
 import Model.Table
+import Proofs.Storage
+import Proofs.KernelArr
 
 /-! # C01 — the geometric product realises the Clifford algebra of the declared signature
 
@@ -83,6 +85,24 @@ theorem fromMathlib_ι {n : Nat} {sig : Nat → R} (v : Fin n → R) :
 /-- `Layout._from_Cl(p, q, r)` builds `[0]*r + [+1]*p + [-1]*q` -/
 theorem sigOfCl_spec (p q r : Nat) :
     sigOfCl p q r = List.replicate r 0 ++ List.replicate p 1 ++ List.replicate q (-1) := rfl
+
+/-- **storage level**: for any storage order `σ` (`index_to_bitmap = σ`, `bitmap_to_index = σ⁻¹`) the contraction of the
+*executable* table built by `constructGmt` (the model of `_numba_construct_gmt`, compared entry by entry with
+`Layout.gmt` on every run) with two value arrays is the canonical product conjugated by the order:
+`(a * b)[j] = gmul A B (σ j)` with `A c = a[σ⁻¹ c]` -/
+theorem table_contraction_is_canonical_product (n : Nat) (sig : Nat → Int) (σ : Equiv.Perm (Bm n)) (i2b b2i : Nat → Nat)
+    (h1 : ∀ i : Bm n, i2b i.val = (σ i).val) (h2 : ∀ c : Bm n, b2i c.val = (σ.symm c).val) (a b : Array R) (j : Bm n) :
+    contraction (constructGmt sig i2b b2i (2 ^ n)) a b j.val
+      = gmul n (fun i => ((sig i : Int) : R)) (fun c => a.getD (b2i c.val) 0) (fun c => b.getD (b2i c.val) 0) (σ j) :=
+  storage_bridge n sig σ i2b b2i h1 h2 a b j
+
+/-- … and so is what the executable kernel (`Model.multSparse`, the model of `layout.gmt_func`) returns -/
+theorem executable_product_is_canonical [DecidableEq R] (n : Nat) (sig : Nat → Int) (σ : Equiv.Perm (Bm n)) (i2b b2i : Nat → Nat)
+    (h1 : ∀ i : Bm n, i2b i.val = (σ i).val) (h2 : ∀ c : Bm n, b2i c.val = (σ.symm c).val) (a b : Array R) (j : Bm n) :
+    (multSparse (2 ^ n) (constructGmt sig i2b b2i (2 ^ n)) a b).getD j.val 0
+      = gmul n (fun i => ((sig i : Int) : R)) (fun c => a.getD (b2i c.val) 0) (fun c => b.getD (b2i c.val) 0) (σ j) := by
+  rw [KernelArr.multSparse_eq_contraction _ _ a b j.val j.isLt]
+  exact storage_bridge n sig σ i2b b2i h1 h2 a b j
 
 /-- non-vacuity: a concrete instance of the bounds used above -/
 example : (5 : Nat) < 2^3 ∧ (3 : Nat) < 2^3 ∧ reorderSwaps 5 3 = 2 := by
